@@ -68,6 +68,36 @@ impl<T: Roundable> Round for IncrementRounder<T> {
     }
 }
 
+impl IncrementRounder<i128> {
+    /// `RoundNumberToIncrementAsIfPositive`: rounds with the directions of a positive
+    /// number whatever the sign of the value (used for values on the epoch line).
+    #[inline]
+    pub(crate) fn round_as_if_positive(&self, mode: RoundingMode) -> i128 {
+        let unsigned_rounding_mode = mode.get_unsigned_round_mode(true);
+        let r1 = self.dividend.div_euclid(self.divisor);
+        let remainder = self.dividend.rem_euclid(self.divisor);
+        if remainder == 0 {
+            return self.dividend;
+        }
+        let r2 = r1 + 1;
+        let rounded = match unsigned_rounding_mode {
+            UnsignedRoundingMode::Zero => r1,
+            UnsignedRoundingMode::Infinity => r2,
+            _ => match remainder.cmp(&(self.divisor - remainder)) {
+                Ordering::Less => r1,
+                Ordering::Greater => r2,
+                Ordering::Equal => match unsigned_rounding_mode {
+                    UnsignedRoundingMode::HalfZero => r1,
+                    UnsignedRoundingMode::HalfInfinity => r2,
+                    _ if r1.rem_euclid(2) == 0 => r1,
+                    _ => r2,
+                },
+            },
+        };
+        rounded * self.divisor
+    }
+}
+
 impl Roundable for i128 {
     fn is_exact(dividend: Self, divisor: Self) -> bool {
         dividend.rem_euclid(divisor) == 0
